@@ -253,7 +253,7 @@ def run(ck):
     stale_size(ck, S, "C08-O7")
 
 
-def crc32(ck, S):
+def crc32(ck, S, RID="C08-O4"):
     fn = S.crc
     ck.touch(fn)
     g = S.g(fn)
@@ -268,18 +268,20 @@ def crc32(ck, S):
                 poly = v
             elif ci is not None and ci & M32 == M32 and v.get("type") in ("unsigned int", "quint32") and not v.get("const"):
                 crcv = v
+    semantic = crc_by_cases(ck, S, RID)
     lits = [n.get("v") for n in fn.find(lambda n: n.get("k") == "int")]
     okp = 0xEDB88320 in lits
-    ck.ob("C08-O4", sitestr(fn), okp, "reflected polynomial 0xEDB88320" if okp else "CRC polynomial is not 0xEDB88320 (constants: %s)" % [hex(x) for x in lits if x > 255][:4], key="calculateCRC32|polynomial")
+    if semantic is None:
+        ck.ob(RID, sitestr(fn), okp, "reflected polynomial 0xEDB88320" if okp else "CRC polynomial is not 0xEDB88320 (constants: %s)" % [hex(x) for x in lits if x > 255][:4], key="calculateCRC32|polynomial")
     if crcv is None:
-        ck.ob("C08-O4", sitestr(fn), False, "the CRC register is not initialised with 0xFFFFFFFF", key="calculateCRC32|init")
+        ck.ob(RID, sitestr(fn), False, "the CRC register is not initialised with 0xFFFFFFFF", key="calculateCRC32|init")
         return
-    ck.ob("C08-O4", sitestr(fn), True, "CRC register initialised with 0xFFFFFFFF")
+    ck.ob(RID, sitestr(fn), True, "CRC register initialised with 0xFFFFFFFF")
     rs = returns(fn)
     e = skip_copies(rs[0].get("e")) if len(rs) == 1 else None
     okf = e is not None and ((e.get("k") == "binop" and e.get("op") == "^" and {True} == {is_ref_to(e.get("lhs"), crcv["decl"]) or is_ref_to(e.get("rhs"), crcv["decl"])} and (const_int(e.get("lhs")) == M32 or const_int(e.get("rhs")) == M32))
                              or (e.get("k") == "unop" and e.get("op") == "~" and is_ref_to(e.get("e"), crcv["decl"])))
-    ck.ob("C08-O4", sitestr(fn, rs[0]) if rs else sitestr(fn), okf, "final xor 0xFFFFFFFF" if okf else "result is %s" % describe(e), key="calculateCRC32|final-xor")
+    ck.ob(RID, sitestr(fn, rs[0]) if rs else sitestr(fn), okf, "final xor 0xFFFFFFFF" if okf else "result is %s" % describe(e), key="calculateCRC32|final-xor")
     # table
     import re as _re
     tab = None
@@ -290,7 +292,7 @@ def crc32(ck, S):
             if "[256]" in t_ or _re.search(r"std::array<[^<>]*, 256>", t_):
                 tab = v
                 TABS.add(v["decl"])
-    ck.ob("C08-O4", sitestr(fn), True if tab is not None else None, "256-entry table" if tab else "no 256-entry table found in the CRC code; idiom not recognised", key="calculateCRC32|table-size")
+    ck.ob(RID, sitestr(fn), True if tab is not None else None, "256-entry table" if tab else "no 256-entry table found in the CRC code; idiom not recognised", key="calculateCRC32|table-size")
     if tab is None:
         return
 
@@ -357,7 +359,8 @@ def crc32(ck, S):
                 why = "update is not table[...] ^ (crc >> 8)"
         else:
             why = "update is %s" % describe(r)
-    ck.ob("C08-O4", sitestr(fn, upd[0]) if upd else sitestr(fn), okupd if (okupd or len(upd) == 1) else None, "update crc = table[(crc ^ byte) & 0xFF] ^ (crc >> 8)" if okupd else "CRC update idiom not standard: %s" % why, key="calculateCRC32|update")
+    if semantic is None:
+        ck.ob(RID, sitestr(fn, upd[0]) if upd else sitestr(fn), okupd if (okupd or len(upd) == 1) else None, "update crc = table[(crc ^ byte) & 0xFF] ^ (crc >> 8)" if okupd else "CRC update idiom not standard: %s" % why, key="calculateCRC32|update")
     # the update covers every byte read: inner loop from 0 to bytesRead, outer loop until atEnd
     if upd:
         loops = enclosing_loops(fn, upd[0])
@@ -372,10 +375,18 @@ def crc32(ck, S):
             if okl:
                 bound = deref_local(fn, ci.get("rhs"))
                 okl = bound.get("id") == rd[0]["id"] or is_call(bound, ("QIODevice::read", "QFile::read"))
+                if not okl and skip_copies(bound).get("k") == "ref":
+                    # `while ((n = read(...)) > 0) for (i = 0; i < n; ...)`: the bound is assigned from read() in the outer loop's own condition
+                    bd_ = skip_copies(bound).get("decl")
+                    okl = any(x.get("k") == "binop" and x.get("op") == "=" and is_ref_to(x.get("lhs"), bd_) and is_call(skip_copies(x.get("rhs")), ("QIODevice::read", "QFile::read"))
+                              for x in walk(outer.get("cond") or {}))
                 det = "" if okl else "inner bound is %s" % describe(bound)
             co = skip_copies(outer.get("cond"))
-            okl = okl and any(is_call(x, ("atEnd",)) for x in walk(co))
-        ck.ob("C08-O4", sitestr(fn, upd[0]), okl if (okl or len(loops) == 2) else None, "every byte returned by read() is folded in, until atEnd()" if okl else "the CRC loops do not cover every byte read %s" % det, key="calculateCRC32|coverage")
+            # the outer loop ends at end of file: `while (!atEnd())`, or `while ((n = read(...)) > 0)` (read() answers 0 / -1 there)
+            until_eof = any(is_call(x, ("atEnd",)) for x in walk(co)) or \
+                (co.get("k") == "binop" and co.get("op") in (">", "!=") and const_int(co.get("rhs")) == 0 and any(is_call(x, ("QIODevice::read", "QFile::read")) for x in walk(co.get("lhs") or {})))
+            okl = okl and until_eof
+        ck.ob(RID, sitestr(fn, upd[0]), okl if (okl or len(loops) == 2) else None, "every byte returned by read() is folded in, until atEnd()" if okl else "the CRC loops do not cover every byte read %s" % det, key="calculateCRC32|coverage")
     # table generation: 256 x 8 steps
     gen = [n for n in fn.find(lambda n: n.get("k") == "binop" and n.get("op") == "=" and elem(n.get("lhs")) is not None and is_tab(elem(n.get("lhs"))[0]))]
     okg = False
@@ -396,9 +407,190 @@ def crc32(ck, S):
             okg = bool(n256 and n8 and step)
     # a definite contradiction is a 256/8 loop nest whose step is not the reflected shift/xor; anything else is "not recognised"
     definite = len(gen) == 1 and bool(n8) and bool(n256) and not step
-    ck.ob("C08-O4", sitestr(fn), True if okg else False if definite else None, "table[i] = 8 x (v & 1 ? (v >> 1) ^ poly : v >> 1) for i in 0..255" if okg else
-          "table generation idiom not recognised as the standard reflected CRC-32 table", key="calculateCRC32|table-generation")
+    if semantic is None:
+        ck.ob(RID, sitestr(fn), True if okg else False if definite else None, "table[i] = 8 x (v & 1 ? (v >> 1) ^ poly : v >> 1) for i in 0..255" if okg else
+              "table generation idiom not recognised as the standard reflected CRC-32 table", key="calculateCRC32|table-generation")
     seeks = [n for n in fn.calls(("QIODevice::seek", "QFileDevice::seek", "QFile::seek")) if const_int(n["args"][0]) == 0]
     rd = [n for n in fn.calls(("QIODevice::read", "QFile::read"))]
     oks = bool(seeks) and bool(rd) and g.dominated(g.site_of(rd[0]), {g.site_of(seeks[0])})
-    ck.ob("C08-O4", sitestr(fn), oks, "the CRC pass starts at offset 0" if oks else "the CRC pass does not rewind the file first", key="calculateCRC32|rewind")
+    ck.ob(RID, sitestr(fn), oks, "the CRC pass starts at offset 0" if oks else "the CRC pass does not rewind the file first", key="calculateCRC32|rewind")
+
+
+def _std_crc_table():
+    t = []
+    for i in range(256):
+        v = i
+        for _ in range(8):
+            v = (v >> 1) ^ 0xEDB88320 if v & 1 else v >> 1
+        t.append(v)
+    return t
+
+
+def crc_by_cases(ck, S, RID):
+    """decides the table and the per-byte update of the CRC code by evaluation (engine/conc.py), whatever their form:
+      (1) the 256 table entries are computed by running the generation loop nest and compared with the CRC-32 table;
+      (2) the loop body that folds one byte in is run for all 256 byte values (as the element type presents them: a plain char is
+          signed here) x the 33 registers {0, 1<<k}.  The update may only use XOR, shifts by constants, AND/OR with constants and look-ups
+          in the (GF(2)-linear) table, so it is an affine map of the register for each byte: agreeing with
+          table[(crc ^ byte) & 0xFF] ^ (crc >> 8) on a basis is agreeing everywhere.
+    Returns True/False when decided (obligations emitted), None when the code is outside this fragment (the idiom rules then apply)."""
+    from engine.conc import Conc, Unknown, Table
+    import re as _re
+    F = ck.facts
+    fn = S.crc
+    units = [fn] + [l for l in F.lambdas_of(fn) if l.body is not None]
+
+    def is_tab_type(t_):
+        return "[256]" in (t_ or "") or bool(_re.search(r"std::array<[^<>]*, 256>", t_ or ""))
+    tabs = {}
+    for u in units:
+        for n in u.find(lambda n: n.get("k") == "decl"):
+            for v in n.get("vars", []):
+                if is_tab_type(v.get("type")):
+                    tabs[v["decl"]] = (u, v)
+    if not tabs:
+        return None
+
+    def table_store(n):
+        """(array decl, index node) if n is an assignment into a 256-entry array"""
+        if n.get("k") == "binop" and n.get("op") == "=":
+            l = skip_copies(n.get("lhs"))
+        elif n.get("k") == "call" and n.get("ck") == "operator" and n.get("op") == "=" and n.get("args"):
+            l = skip_copies(n["args"][0])
+        else:
+            return None
+        if l.get("k") == "subscript":
+            b, i = skip_copies(l.get("base")), l.get("idx")
+        elif l.get("k") == "call" and (l.get("op") == "[]" or (l.get("callee") or "").endswith("operator[]") or (l.get("callee") or "").endswith("::at")):
+            b = skip_copies(l.get("obj") if l.get("ck") == "member" else l["args"][0])
+            i = (l.get("args") or [None])[-1]
+        else:
+            return None
+        if isinstance(b, dict) and b.get("k") == "ref" and b.get("decl") in tabs:
+            return b["decl"], i
+        return None
+    gen = None
+    for u in units:
+        for lp in find_loops(u):
+            if enclosing_loops(u, lp):
+                continue
+            if any(table_store(x) for x in walk(lp)):
+                gen = (u, lp)
+    if gen is None:
+        return None
+    gu, gl = gen
+    got = {}
+
+    def hook(lhs, v, env):
+        l = skip_copies(lhs)
+        b = i = None
+        if l.get("k") == "subscript":
+            b, i = skip_copies(l.get("base")), l.get("idx")
+        elif l.get("k") == "call":
+            b = skip_copies(l.get("obj") if l.get("ck") == "member" else (l.get("args") or [{}])[0])
+            i = (l.get("args") or [None])[-1]
+        if isinstance(b, dict) and b.get("k") == "ref" and b.get("decl") in tabs and isinstance(i, dict):
+            got.setdefault(b["decl"], {})[cx.eval(i, env)] = v
+            return True
+        return False
+    cx = Conc(F, store_hook=hook, max_steps=400000)
+    try:
+        cx.exec(gl, {"__fn__": gu})
+    except Unknown as e:
+        ck.notes.append("CRC table could not be tabulated: %s" % e)
+        return None
+    full = [d for d, m in got.items() if sorted(m) == list(range(256))]
+    if len(full) != 1:
+        return None
+    tdecl = full[0]
+    timpl = [got[tdecl][i] & 0xFFFFFFFF for i in range(256)]
+    std = _std_crc_table()
+    diff = [i for i in range(256) if timpl[i] != std[i]]
+    ck.ob(RID, sitestr(gu, gl), not diff, "the 256 table entries, computed from the source of the generation loop, are the CRC-32 table (reflected polynomial 0xEDB88320)" if not diff else
+          "the generated table differs from the CRC-32 table in %d entries (first: table[%d] = %#x, expected %#x)" % (len(diff), diff[0], timpl[diff[0]], std[diff[0]]), key="calculateCRC32|table")
+    if diff:
+        return False
+    # the table seen by the update code: the same object, or a reference / copy of what the generator returned
+    tab_decls = set(tabs)
+    # (2) the update
+    rs = returns(fn)
+    crcd = None
+    for r in rs:
+        for x in walk(r.get("e") or {}):
+            if x.get("k") == "ref" and x.get("dk") == "local" and (x.get("type") or "").replace("const ", "").strip() in ("unsigned int", "quint32", "uint", "uint32_t", "unsigned long"):
+                crcd = x["decl"]
+    if crcd is None:
+        return None
+    inner = [lp for lp in find_loops(fn) if any(x.get("k") in ("binop", "call") and is_ref_to(skip_copies((x.get("lhs") or (x.get("args") or [{}])[0]) or {}), crcd) and (x.get("op") or "").endswith("=") and x.get("op") not in ("==", "!=", "<=", ">=")
+                                                 for x in walk(lp.get("body") or {})) and not any(l2["id"] != lp["id"] and any(y.get("id") == l2["id"] for y in walk(lp.get("body") or {})) for l2 in find_loops(fn))]
+    if len(inner) != 1:
+        return None
+    body = inner[0].get("body")
+    # affine fragment only
+    for x in walk(body):
+        if x.get("k") == "binop":
+            op = x.get("op")
+            base = op[:-1] if op.endswith("=") and op not in ("==", "!=", "<=", ">=") else op
+            if base in ("^", "=", ""):
+                continue
+            if base in (">>", "<<"):
+                if const_int(x.get("rhs")) is None:
+                    return None
+                continue
+            if base in ("&", "|"):
+                if const_int(x.get("rhs")) is None and const_int(x.get("lhs")) is None:
+                    return None
+                continue
+            return None
+        if x.get("k") == "unop" and x.get("op") not in ("~",):
+            return None
+        if x.get("k") in ("if", "cond", "while", "for", "do", "switch"):
+            return None
+    CH = {"char": True, "signed char": True, "unsigned char": False, "uchar": False, "quint8": False, "qint8": True, "uint8_t": False, "int8_t": True}
+
+    def byte_elem(n):
+        """does n read one element of the input buffer? returns the signedness of the element type, else None"""
+        n = skip_copies(n)
+        t_ = (n.get("type") or "").replace("const ", "").strip()
+        if t_ not in CH:
+            return None
+        if n.get("k") == "subscript":
+            b = skip_copies(n.get("base"))
+            if not (b.get("k") == "ref" and b.get("decl") in tab_decls):
+                return CH[t_]
+        if n.get("k") == "call" and ((n.get("callee") or "").split("::")[-1] in ("at", "operator[]") or n.get("op") == "[]"):
+            return CH[t_]
+        if n.get("k") == "unop" and n.get("op") == "*":
+            return CH[t_]
+        return None
+    bad, n_eval = [], 0
+    try:
+        for b in range(256):
+            def leaf(n, env, b=b):
+                sg = byte_elem(n) if n.get("k") in ("subscript", "call", "unop") else None
+                if sg is None:
+                    return None
+                return b - 256 if (sg and b >= 128) else b
+            for reg in [0] + [1 << k for k in range(32)]:
+                env = {"__fn__": fn, crcd: reg}
+                for d_ in tab_decls:
+                    env[d_] = Table(items=list(timpl))
+                c2 = Conc(F, leaf=leaf, max_steps=4000)
+                c2.exec(body, env)
+                n_eval += 1
+                out = env.get(crcd)
+                want = std[(reg ^ b) & 0xFF] ^ (reg >> 8)
+                if not isinstance(out, int) or (out & 0xFFFFFFFF) != want:
+                    if len(bad) < 4:
+                        bad.append("byte %#04x, register %#x -> %s (expected %#x)" % (b, reg, hex(out & 0xFFFFFFFF) if isinstance(out, int) else out, want))
+                    if len(bad) >= 4:
+                        raise StopIteration
+    except StopIteration:
+        pass
+    except Unknown as e:
+        ck.notes.append("CRC update could not be evaluated: %s" % e)
+        return None
+    ck.ob(RID, sitestr(fn, inner[0]), not bad, "the per-byte update, run for all 256 byte values x 33 basis registers (%d evaluations; the update is affine in the register), equals table[(crc ^ byte) & 0xFF] ^ (crc >> 8)" % n_eval if not bad else
+          "the per-byte update is not the CRC-32 step: %s%s" % ("; ".join(bad), " — bytes >= 0x80 are sign-extended (plain char) before they are folded in" if all("byte 0x8" in x or "byte 0x9" in x or "byte 0xa" in x or "byte 0xb" in x or "byte 0xc" in x or "byte 0xd" in x or "byte 0xe" in x or "byte 0xf" in x for x in bad) else ""),
+          key="calculateCRC32|update")
+    return not bad
